@@ -54,10 +54,20 @@ def rsaDecrypt (Q : NumPrims) (key : PrivKey) (data : Bytes) (len : Nat) : Optio
 
 inductive Err where
   | tooLong | tape | invalid | mismatch
+  /-- the source reads its random bytes other than through `io.ReadFull`: the result would depend on how
+  the reader chunks its output, which this (chunking-independent) model cannot express. -/
+  | shortRead
   deriving Repr, DecidableEq
 
 def Err.tag : Err → String
   | .tooLong => "too-long" | .tape => "tape" | .invalid => "invalid" | .mismatch => "mismatch"
+  | .shortRead => "short-read-possible"
+
+/-- Every use of the random source in the function is `io.ReadFull(randomSource, dst)` (regenerated list
+of (callee, destination)); only then "the next n bytes of the tape" is what the code obtains for
+*every* chunking of the reader. -/
+def readsViaReadFull (reads : List (String × String)) : Bool :=
+  !reads.isEmpty && reads.all (fun r => r.1 == "io.ReadFull")
 
 def zeroIV : Bytes := List.replicate 32 0
 
@@ -159,13 +169,18 @@ def rsaPadLoop (P : Prims) (Q : NumPrims) (key : PubKey) (dataWithPadding : Byte
       if beNat kae ≥ key.n then rsaPadLoop P Q key dataWithPadding fuel (tape.drop tempKeySize)
       else .ok (rsaEncrypt Q key kae)
 
-/-- `crypto.RSAPad(data, key, randomSource)`. -/
-def rsaPad (P : Prims) (Q : NumPrims) (key : PubKey) (data tape : Bytes) : Except Err Bytes :=
+/-- `crypto.RSAPad(data, key, randomSource)` given that all random bytes are obtained with `io.ReadFull`. -/
+def rsaPadCore (P : Prims) (Q : NumPrims) (key : PubKey) (data tape : Bytes) : Except Err Bytes :=
   if data.length > rsaPadDataLimit then .error .tooLong
   else if tape.length < dataWithPaddingLength - data.length then .error .tape
   else
     let dataWithPadding := data ++ tape.take (dataWithPaddingLength - data.length)
     rsaPadLoop P Q key dataWithPadding tape.length (tape.drop (dataWithPaddingLength - data.length))
+
+/-- `crypto.RSAPad(data, key, randomSource)`; `tape` = the bytes the random source delivers, in whatever
+chunks (guarded by the regenerated fact that the source is read through `io.ReadFull` only). -/
+def rsaPad (P : Prims) (Q : NumPrims) (key : PubKey) (data tape : Bytes) : Except Err Bytes :=
+  if readsViaReadFull Facts.C14.padRandomReads then rsaPadCore P Q key data tape else .error .shortRead
 
 /-- `crypto.DecodeRSAPad(data, key)`; slices, xor / cipher / hash operands and the reversed buffer are
 **regenerated** (`Facts.C14.dec…`) and interpreted. -/
@@ -183,14 +198,19 @@ def decodeRsaPad (P : Prims) (Q : NumPrims) (key : PrivKey) (data : Bytes) : Exc
     if w.get Facts.C14.decCompare = P.sha256 (w.cat Facts.C14.decHashWrites) then .ok w.dataWithPadding
     else .error .mismatch
 
-/-- `crypto.RSAEncryptHashed(data, key, randomSource)`. -/
-def rsaEncryptHashed (P : Prims) (Q : NumPrims) (key : PubKey) (data tape : Bytes) : Except Err Bytes :=
+/-- `crypto.RSAEncryptHashed(data, key, randomSource)` given `io.ReadFull`. -/
+def rsaEncryptHashedCore (P : Prims) (Q : NumPrims) (key : PubKey) (data tape : Bytes) : Except Err Bytes :=
   if data.length > rsaDataLen then .error .tooLong
   else if tape.length < rsaWithHashLen then .error .tape
   else
     let rnd := tape.take rsaWithHashLen
     let dataWithHash := P.sha1 data ++ data ++ rnd.drop (Facts.C14.sha1Size + data.length)
     .ok (rsaEncrypt Q key dataWithHash)
+
+/-- `crypto.RSAEncryptHashed(data, key, randomSource)` (guarded like `rsaPad`). -/
+def rsaEncryptHashed (P : Prims) (Q : NumPrims) (key : PubKey) (data tape : Bytes) : Except Err Bytes :=
+  if readsViaReadFull Facts.C14.hashedRandomReads then rsaEncryptHashedCore P Q key data tape
+  else .error .shortRead
 
 /-- The guessing loop of `RSADecryptHashed`: `i = 0 … len(paddedData)`, longest prefix first;
 `n` = remaining prefix lengths to try below the current one. -/
